@@ -11,8 +11,9 @@
 //	new                                                     => ok
 //	put <map> <keyType> <valType> k=<leaf,…> v=<leaf,…>     => k=<hex> v=<hex> | err size-key | err size-value | err <msg>
 //	get <map> <keyType> <valType> rawk=<hex> rawv=<hex>     => v=<leaf,…> | err size-value | err <msg>
+//	iter <map> <keyType> <valType> rawk=<hex> rawv=<hex>    => k=<leaf,…> v=<leaf,…> del=ok|notfound left=<n> | err size-key | …
 //	percpu nat|qos|antispoof                                => err percpu | ok
-//	x qos|antispoof|dhcp|nat|fnv|wg  name=value …           => name=hex …   (see the functions below)
+//	x qos|antispoof|dhcp|nat|purge|fnv|wg  name=value …     => name=hex …   (see the functions below)
 //	kf cidraw <options hex>                                 => c=<hex|none>
 //
 // Leaf contents are raw bytes in memory order (integers little-endian); blank Go fields take no value.
@@ -183,6 +184,7 @@ var registry = map[string]reflect.Type{
 	"nat.EIMKey":                  reflect.TypeOf(nat.EIMKey{}),
 	"nat.EIMMapping":              reflect.TypeOf(nat.EIMMapping{}),
 	"nat.NATSession":              reflect.TypeOf(nat.NATSession{}),
+	"nat.natSessionKey":           reflect.TypeOf(nat.NatSessionKeyForVerif{}), // unexported mirror of struct nat_key (verif hook)
 	"qos.TokenBucket":             reflect.TypeOf(qos.TokenBucket{}),
 	"qos.QoSStats":                reflect.TypeOf(qos.QoSStats{}),
 	"antispoof.Config":            reflect.TypeOf(antispoof.Config{}),
@@ -672,6 +674,8 @@ func (r *run) Do(op string) string {
 		return r.doPut(f)
 	case "get":
 		return r.doGet(f)
+	case "iter":
+		return r.doIter(f)
 	case "percpu":
 		return r.doPercpu(f)
 	case "pget":
@@ -697,6 +701,8 @@ func (r *run) Do(op string) string {
 			return r.xDhcp(a)
 		case "nat":
 			return r.xNat(a)
+		case "purge":
+			return r.xPurge(a)
 		case "fnv":
 			return r.xFnv(a)
 		case "wg":
@@ -1228,7 +1234,7 @@ func (r *run) xQos(a map[string]string) string {
 	return fmt.Sprintf("go.egress=%s go.ingress=%s c.egress=%s c.ingress=%s", hx0(ke), hx0(ki), first(evE, "L:qos_egress"), first(evI, "L:qos_ingress"))
 }
 
-// x antispoof mac=<6B> ip=<4B> plen=<n>
+// x antispoof mac=<6B> ip=<4B> plen=<n> [form=16]   (form=16: AddAllowedRange gets the network address in 16-byte form)
 func (r *run) xAntispoof(a map[string]string) string {
 	mac, ip := mustHex(a["mac"]), mustHex(a["ip"])
 	plen, _ := strconv.Atoi(a["plen"])
@@ -1240,7 +1246,11 @@ func (r *run) xAntispoof(a map[string]string) string {
 		return classify(err)
 	}
 	mask := net.CIDRMask(plen, 32)
-	if err := r.asMgr.AddAllowedRange(&net.IPNet{IP: net.IP(ip).Mask(mask), Mask: mask}); err != nil {
+	nip := net.IP(ip).Mask(mask)
+	if a["form"] == "16" { // the same IPv4 network with its address in 16-byte form (net.IPv4(…), what net.ParseCIDR / To16 give)
+		nip = nip.To16()
+	}
+	if err := r.asMgr.AddAllowedRange(&net.IPNet{IP: nip, Mask: mask}); err != nil {
 		return classify(err)
 	}
 	bk, bv, ok1 := one(bm)
@@ -1764,6 +1774,69 @@ func (comp) Gen(r *rand.Rand, tier string, emit func([]string)) {
 			}
 		}
 	}
+	// ---- iteration: every (map, key type, value type) the Go code reads with MapIterator.Next — the raw entry as a program
+	// wrote it is decoded through the typed KEY and value and the key handed back to Delete (purgeSubscriberState's pattern)
+	seenI := map[tk]bool{}
+	for _, u := range layout.Uses {
+		m := cmaps[u.Map]
+		if u.Op != "Next" || u.GoVal == nil || seenI[tk{u.Map, u.GoKey.Name, u.GoVal.Name}] {
+			continue
+		}
+		seenI[tk{u.Map, u.GoKey.Name, u.GoVal.Name}] = true
+		if _, ok := registry[u.GoKey.Name]; !ok {
+			fatal("key type %s (map %s, %s) is not in the harness registry", u.GoKey.Name, u.Map, u.Site)
+		}
+		if _, ok := registry[u.GoVal.Name]; !ok {
+			fatal("value type %s (map %s, %s) is not in the harness registry", u.GoVal.Name, u.Map, u.Site)
+		}
+		if m.Type != "HASH" && m.Type != "LRU_HASH" {
+			fatal("map %s (%s) is iterated at %s: the harness iterates hash maps only", u.Map, m.Type, u.Site)
+		}
+		head := fmt.Sprintf("iter %s %s %s", u.Map, u.GoKey.Name, u.GoVal.Name)
+		rawKey := func(hot int, dirtyPad bool) []byte {
+			rk := make([]byte, m.KeySize)
+			i := 0
+			for _, kf := range u.GoKey.Fields {
+				if kf.Off+kf.Width > len(rk) {
+					continue
+				}
+				switch {
+				case kf.Norm == "_":
+					if dirtyPad { // not an entry a program wrote: both sides answer `badop padding`
+						r.Read(rk[kf.Off : kf.Off+kf.Width])
+						rk[kf.Off] |= 1
+					}
+				case hot < 0:
+					copy(rk[kf.Off:], rbytes(r, kf.Width))
+				default:
+					if i == hot {
+						for j := 0; j < kf.Width; j++ {
+							rk[kf.Off+j] = 0xff
+						}
+					}
+				}
+				if kf.Norm != "_" {
+					i++
+				}
+			}
+			return rk
+		}
+		seq := []string{"new"}
+		for i := 0; i < nData(u.GoKey); i++ { // walking field of the key: exactly one data leaf non-zero
+			seq = append(seq, fmt.Sprintf("%s rawk=%s rawv=%s", head, hex.EncodeToString(rawKey(i, false)), strings.Repeat("00", m.ValSize)))
+		}
+		emit(seq)
+		for n := 0; n < 3*scale; n++ {
+			seq := []string{"new"}
+			for j := 0; j < 8; j++ {
+				rv := make([]byte, m.ValSize)
+				r.Read(rv)
+				// the programs zero the padding of the keys they build
+				seq = append(seq, fmt.Sprintf("%s rawk=%s rawv=%s", head, hex.EncodeToString(rawKey(-1, r.Intn(12) == 0)), hex.EncodeToString(rv)))
+			}
+			emit(seq)
+		}
+	}
 	emit([]string{"new", "percpu nat", "percpu qos", "percpu antispoof"})
 	// ---- fields BY NAME: every struct value the Go code writes, each data field alone and all together with distinct
 	// values, decoded member by member by the compiled C code (two same-width fields swapped on one side decode swapped)
@@ -1814,11 +1887,14 @@ func (comp) Gen(r *rand.Rand, tier string, emit func([]string)) {
 	for n := 0; n < 40*scale; n++ {
 		seq := []string{"new"}
 		for j := 0; j < 6; j++ {
-			switch r.Intn(6) {
+			switch r.Intn(7) {
+			case 6:
+				seq = append(seq, purgeOp(r))
 			case 0:
 				seq = append(seq, "x qos ip="+h(randIP(r)))
 			case 1:
-				seq = append(seq, fmt.Sprintf("x antispoof mac=%s ip=%s plen=%d", h(randMAC(r)), h(randIP(r)), []int{32, 24, 16, 8, 30}[r.Intn(5)]))
+				seq = append(seq, fmt.Sprintf("x antispoof mac=%s ip=%s plen=%d%s", h(randMAC(r)), h(randIP(r)), []int{32, 24, 16, 8, 30}[r.Intn(5)],
+					[]string{"", " form=16"}[r.Intn(2)]))
 			case 2:
 				s, c, cid := "-", "-", "-"
 				if r.Intn(3) > 0 {
@@ -1861,6 +1937,49 @@ func (comp) Gen(r *rand.Rand, tier string, emit func([]string)) {
 	if len(skipped) > 0 {
 		fmt.Fprintln(os.Stderr, "layoutbytes: function-local key types exercised through the real methods:", strings.Join(skipped, "; "))
 	}
+}
+
+// wirePriv: a source address the NAT program translates (is_private_ip), sometimes a byte palindrome
+func wirePriv(r *rand.Rand) []byte {
+	switch r.Intn(6) {
+	case 0:
+		x := byte(r.Intn(256))
+		return []byte{10, x, x, 10}
+	case 1:
+		return []byte{10, 0, 1, 5}
+	case 2:
+		return []byte{192, 168, byte(r.Intn(256)), byte(1 + r.Intn(254))}
+	case 3:
+		return []byte{100, byte(64 + r.Intn(64)), byte(r.Intn(256)), byte(1 + r.Intn(254))}
+	}
+	return []byte{10, byte(r.Intn(256)), byte(r.Intn(256)), byte(1 + r.Intn(254))}
+}
+
+// purgeOp: DeallocateNAT(priv) after the program translated a flow whose wire source is `src`:
+//   - src = priv            the subscriber's own flow (what the operator means by priv)
+//   - src = reverse(priv)   the flow that HITS the subscriber_nat entry Go wrote for priv in a real kernel (D10)
+//   - src unrelated         somebody else's flow
+func purgeOp(r *rand.Rand) string {
+	h := hex.EncodeToString
+	rev := func(b []byte) []byte { return []byte{b[3], b[2], b[1], b[0]} }
+	src := wirePriv(r)
+	priv := src
+	switch r.Intn(5) {
+	case 0, 1:
+		priv = rev(src)
+	case 2:
+		priv = wirePriv(r)
+	}
+	var bsrc []byte
+	for {
+		bsrc = wirePriv(r)
+		if !bytes.Equal(bsrc, priv) && !bytes.Equal(bsrc, src) && !bytes.Equal(bsrc, rev(priv)) || r.Intn(8) == 0 && !bytes.Equal(bsrc, priv) && !bytes.Equal(bsrc, src) {
+			break
+		}
+	}
+	proto := []int{6, 17}[r.Intn(2)]
+	return fmt.Sprintf("x purge priv=%s src=%s bsrc=%s pub=%s dst=%s sport=%d dport=%d proto=%d", h(priv), h(src), h(bsrc), h(randIP(r)), h(randIP(r)),
+		[]int{5000, 1024, 65535, 257, 0x1313}[r.Intn(5)], []int{21, 53, 5060, 80, 443, 0x5050}[r.Intn(6)], proto)
 }
 
 // genKeySweeps: the key derivations on systematic inputs — every byte value in the first and in the last position
